@@ -161,6 +161,8 @@ func (g *Gateway) introspectSchema(schema *introspection.Schema, selectionSet as
 		switch field.Name {
 		case "__typename":
 			result[field.Alias] = "__Schema"
+		case introspectDescription:
+			result[field.Alias] = schema.Description()
 		case "types":
 			result[field.Alias] = g.introspectTypeSlice(schema.Types(), field.SelectionSet)
 		case "queryType":
@@ -213,6 +215,13 @@ func (g *Gateway) introspectType(schemaType *introspection.Type, selectionSet as
 			result[field.Alias] = g.introspectInputValueSlice(schemaType.InputFields(), field.SelectionSet)
 		case introspectOfType:
 			result[field.Alias] = g.introspectType(schemaType.OfType(), field.SelectionSet)
+		case "specifiedByURL":
+			// only named types can carry @specifiedBy
+			if schemaType.Name() != nil {
+				result[field.Alias] = schemaType.SpecifiedByURL()
+			} else {
+				result[field.Alias] = nil
+			}
 		}
 	}
 	return result
@@ -281,6 +290,8 @@ func (g *Gateway) introspectDirective(directive introspection.Directive, selecti
 			result[field.Alias] = g.introspectInputValueSlice(directive.Args, field.SelectionSet)
 		case "locations":
 			result[field.Alias] = directive.Locations
+		case "isRepeatable":
+			result[field.Alias] = directive.IsRepeatable
 		}
 	}
 	return result
